@@ -382,12 +382,127 @@ def gen_edge_prog(rng):
     return p
 
 
+def gen_assert_prog(rng):
+    """directed family for /repo b4e61a4 (F77): constants whose value is an assertion that depends on addresses, labels
+    (forward and backward) and banks -- `k = assert($ > N)`, `k = assert(l < N)`, `k = { assert(l1 - l0 == N), v }` --
+    global and nested (`.k`), used by data or unused, in 0-2 banks with bank switches; N sits around the real value so
+    that both outcomes occur.  A failed assertion in a constant is an error on the final pass only; guessing passes keep
+    the failed value."""
+    p = Prog2(asm_gen.Isa())
+    p.kind = 'assert'
+    it = p.items
+    nb = rng.weighted([(0, 35), (1, 35), (2, 30)])
+    banks = []                  # [name, unit, addr, position in address units]
+    outp = 0
+    for i in range(nb):
+        unit = rng.weighted([(8, 60), (4, 20), (16, 20)])
+        a = rng.choice([0, 0x10, 0x40, 0x100, -8])
+        f = {'addr': ('0x%x' % a) if a >= 0 else '-0x%x' % -a, 'outp': '0x%x' % outp, 'size': '0x100'}
+        if unit != 8 or rng.chance(0.3):
+            f['bits'] = str(unit)
+        outp += 0x100 * unit
+        it.append(('bankdef', 'bk%d' % i, f))
+        banks.append(['bk%d' % i, unit, a, 0])
+    if not banks:
+        banks.append([None, 8, 0, 0])
+    cur = len(banks) - 1
+    labels = ['l%d' % i for i in range(rng.range(1, 4))]
+    # decide where each label will be: simulate the layout first
+    plan = []
+    nitems = rng.range(4, 10)
+    pend = list(labels)
+    for j in range(nitems):
+        k = rng.below(100)
+        if len(banks) > 1 and k < 12:
+            plan.append(('bank', rng.below(len(banks))))
+        elif pend and k < 35:
+            plan.append(('label', pend.pop(0)))
+        elif k < 65:
+            plan.append(('akonst', None))
+        elif k < 72:
+            plan.append(('res', rng.range(0, 3)))
+        else:
+            plan.append(('data', rng.range(1, 2)))
+    for l in pend:
+        plan.append(('label', l))
+    # first walk: label addresses and the address at every point
+    pos = {i: 0 for i in range(len(banks))}
+    c = cur
+    laddr = {}
+    here = []
+    for e in plan:
+        b = banks[c]
+        step = 8 // b[1] if b[1] < 8 else 1          # address units per data element (element width = lcm(8, unit))
+        here.append(b[2] + pos[c])
+        if e[0] == 'bank':
+            c = e[1]
+        elif e[0] == 'label':
+            laddr[e[1]] = b[2] + pos[c]
+        elif e[0] == 'res':
+            pos[c] += e[1]
+        elif e[0] == 'data':
+            pos[c] += e[1] * step
+    near = lambda v: v + rng.choice([-2, -1, 0, 0, 1, 1, 2, 5])
+    nk = 0
+    c = cur
+    ctx_parent = None
+    names = list(labels)
+    for e, addr in zip(plan, here):
+        b = banks[c]
+        w = 8 if b[1] <= 8 else b[1]
+        if e[0] == 'bank':
+            c = e[1]; it.append(('bank', banks[c][0]))
+        elif e[0] == 'label':
+            it.append(('label', e[1], 0)); ctx_parent = e[1]
+        elif e[0] == 'res':
+            it.append(('res', str(e[1])))
+        elif e[0] == 'data':
+            it.append(('data', w, [str(rng.below(200)) for _ in range(e[1])]))
+        else:
+            form = rng.below(100)
+            l = rng.choice(labels)
+            if form < 30:
+                lhs, val = '$', addr
+            elif form < 65:
+                lhs, val = l, laddr[l]
+            elif form < 85 and len(labels) > 1:
+                l2 = rng.choice([x for x in labels if x != l])
+                lhs, val = '%s - %s' % (l, l2), laddr[l] - laddr[l2]
+            else:
+                lhs, val = '%s - $' % l, laddr[l] - addr
+            op, n = rng.choice(['>', '>=', '<', '<=', '==', '!=']), near(val)
+            holds = {'>': val > n, '>=': val >= n, '<': val < n, '<=': val <= n, '==': val == n, '!=': val != n}[op]
+            if not holds and rng.chance(0.75):
+                op = {'>': '<=', '>=': '<', '<': '>=', '<=': '>', '==': '!=', '!=': '=='}[op]     # mostly true in the final state
+            cond = '%s %s %d' % (lhs, op, n)
+            if rng.chance(0.25):
+                cond = '(%s) || (%s == %d)' % (cond, l, near(laddr[l]))
+            valued = rng.chance(0.5)
+            expr = ('{ assert(%s), %s }' % (cond, rng.choice(['7', l, '$', l + ' + 1']))) if valued else 'assert(%s)' % cond
+            lvl = 1 if ctx_parent and rng.chance(0.35) else 0
+            name = ('k%d' % nk) if lvl == 0 else rng.choice(['k', 'chk', 'a%d' % nk])
+            full = name if lvl == 0 else None
+            nk += 1
+            it.append(('const', name, expr, lvl))
+            names.append(name)
+            if lvl == 0:
+                ctx_parent = name
+            if valued and rng.chance(0.6):
+                # a consumer (wide enough for any address of the family)
+                ref = name if lvl == 0 else '.' + name
+                it.append(('data', 32 if b[1] != 16 else 32, [ref]))
+    p.names = names
+    return p
+
+
 def gen_prog2(rng):
     """one program of the Resolver2 streams; .kind names the family"""
     k = rng.below(100)
     if k < 4:
         return gen_edge_prog(rng)
-    if k < 12:
+    if k < 8:
+        return gen_assert_prog(rng)
+    if k < 14:
         p = decorate(rng, asm_gen.gen_chain_prog(rng), gentle=True); p.kind = 'chain'
     elif k < 25:
         p = decorate(rng, asm_gen.gen_shift_prog(rng), gentle=True); p.kind = 'shift'
